@@ -21,7 +21,7 @@ import random
 from typing import Any
 
 from hv.gen import family
-from hv.gen.programs import Gen, World, blocks_of, creation_envs, expected, run_steps, shape_key
+from hv.gen.programs import Gen, World, _outcome, blocks_of, creation_envs, expected, run_steps, shape_key
 from hv.loop import run_virtual
 from hv.record import Recorder
 from hv.sched import Chooser, Sched
@@ -39,7 +39,7 @@ ASSUMPTIONS = [
     "which of several same-type instances supplied by the same block is returned is unspecified (any of them is accepted)",
     "equality, not identity, of the returned instance is judged; ctx.updated outside any scope is not generated",
 ]
-MINIMUMS = {"monitor:lookup": 50000, "monitor:lookup-default": 50000, "shadowing_lookups": 3000, "explicit_default_wins": 3000, "explicit_default_of_another_class_wins": 500, "missing_state": 3000, "disposable_supplied": 300, "programs_with_prepared_scopes": 300, "monitor:lookup-in-completion": 5000, "completion_lookups_outside_every_scope": 500}
+MINIMUMS = {"monitor:lookup": 50000, "monitor:lookup-default": 50000, "shadowing_lookups": 3000, "explicit_default_wins": 3000, "explicit_default_of_another_class_wins": 500, "missing_state": 3000, "disposable_supplied": 300, "programs_with_prepared_scopes": 300, "monitor:lookup-in-completion": 5000, "completion_lookups_outside_every_scope": 500, "lookups_under_a_shared_disposables_object": 10}
 JOBS = {"quick": 4, "thorough": 16}
 OPTIMIZED_SHARDS = {"quick": 2, "thorough": 16}  # the same cases once more under `python -O`
 LEVEL_TEXT = (
@@ -264,7 +264,71 @@ def run_batch(R: Recorder, programs: Any, rng: random.Random) -> None:
         R.inconclusive.append(f"batch driver ended {status}: {value!r}")
 
 
+def shared_disposables_lookups(R: Recorder) -> None:
+    """one prepared `Disposables` object used by two sibling scopes in two tasks that overlap in time (request handlers sharing a prepared
+    set of resources): each entering produces state of its own, and each scope sees what ITS entering produced - never the other's"""
+    from haiway import Disposables, ctx
+
+    for order in ("b-inside-a", "a-left-first"):
+        case = {"shared_disposables": order}
+        seen: dict[str, Any] = {}
+        entered = {"n": 0}
+
+        class Resource:
+            async def __aenter__(self) -> Any:
+                entered["n"] += 1
+                await asyncio.sleep(0)
+                return family.make("R1", 900 + entered["n"])
+
+            async def __aexit__(self, *exc: Any) -> None:
+                await asyncio.sleep(0)
+
+        def look(tag: str) -> None:
+            seen[tag] = _outcome(lambda: ctx.state(family.R1))
+
+        async def main() -> None:
+            shared = Disposables(Resource())
+            a_inside, b_done, a_done = asyncio.Event(), asyncio.Event(), asyncio.Event()
+
+            async def a() -> None:
+                async with ctx.scope("a", disposables=shared):
+                    look("a.1")
+                    a_inside.set()
+                    if order == "b-inside-a":
+                        await b_done.wait()
+                    else:
+                        await asyncio.sleep(0)
+                    look("a.2")
+                a_done.set()
+
+            async def b() -> None:
+                await a_inside.wait()
+                async with ctx.scope("b", disposables=shared):
+                    look("b.1")
+                    if order == "a-left-first":
+                        await a_done.wait()
+                    look("b.2")
+                b_done.set()
+
+            async with ctx.scope("root", family.make("R1", 1)):
+                await asyncio.gather(a(), b())
+                look("root.after")
+
+        try:
+            asyncio.run(main())
+        except BaseException as exc:  # noqa: BLE001
+            seen["error"] = repr(exc)
+        R.case(case, nontrivial=True)
+        R.count("lookups_under_a_shared_disposables_object", 5)
+        want = {"a.1": ("val", ("R1", 901)), "a.2": ("val", ("R1", 901)), "b.1": ("val", ("R1", 902)), "b.2": ("val", ("R1", 902)), "root.after": ("val", ("R1", 1))}
+        for tag, w in want.items():
+            R.monitor("lookup", seen.get(tag) == w, where={"kind": "wrong-lookup", "expected": "supplier", "observed": "other-instance" if seen.get(tag) is not None else "nothing", "shared_disposables": order, "type": "required"},
+                      detail=f"{order}: ctx.state(R1) at {tag} -> {seen.get(tag)!r}, the enclosing scope's own entering of the shared resources produced {w!r}; all {seen}", case=case)
+
+
 def run(R: Recorder, tier: str, seed: int, shard: int, nshards: int) -> None:
+    if shard == 0:
+        shared_disposables_lookups(R)
     types = ["D1", "R1"] if tier == "quick" else ["D1", "R1", "SubD1"]
     R.flags["exhaustive_core"] = f"all forests of <= 3 blocks x kinds x supplied subsets of {types}"
     rng = random.Random(f"C01/{seed}/{shard}")
@@ -293,6 +357,9 @@ def run(R: Recorder, tier: str, seed: int, shard: int, nshards: int) -> None:
 
 
 def replay(R: Recorder, case: dict[str, Any]) -> None:
+    if isinstance(case, dict) and "shared_disposables" in case:
+        shared_disposables_lookups(R)
+        return
     rng = random.Random("replay")
     prog = case["program"] if isinstance(case, dict) and "program" in case else case
     run_batch(R, [prog], rng)
